@@ -1,7 +1,7 @@
 """C17 - real-time loop never runs early, never drops a wake-up, always stops (timer/stop scenarios + phase-log verdicts)."""
 from __future__ import annotations
 import json, os, random, time
-from .runner import Inconclusive, ensure_build, REPLAYS, write_evidence, sig_hash
+from .runner import Inconclusive, ensure_build, REPLAYS, write_evidence, sig_hash, scaled
 from .rt import Scenario, run_scenarios
 
 PROPERTY = "C17"
@@ -206,7 +206,7 @@ def main(tier, seed, replay):
         print(f"INCONCLUSIVE property={PROPERTY} reason={e}")
         return 2
     rng = random.Random(f"C17/{seed}/{tier}")
-    n = 160 if tier == "quick" else 2500
+    n = scaled(160 if tier == "quick" else 2500)
     if replay:
         rp = json.load(open(replay))
         scs = [Scenario(rp["scenario"]["name"], rp["scenario"]["kv"])]
